@@ -2422,8 +2422,8 @@ def write_cache_meta(meta: CacheMeta, manager: BuildManager, meta_file: str) -> 
         manager.log(f"Error writing cache meta file {meta_file}")
 
 
-def write_cache_meta_ex(meta_file: str, meta_ex: CacheMetaEx, manager: BuildManager) -> None:
-    # Write errors cache file
+def write_cache_meta_ex(meta_file: str, meta_ex: CacheMetaEx, manager: BuildManager) -> bool:
+    # Write errors cache file. Return False if the write failed.
     meta_ex_file = get_meta_ex_name(meta_file)
     metastore = manager.metastore
     if manager.options.fixed_format_cache:
@@ -2435,6 +2435,8 @@ def write_cache_meta_ex(meta_file: str, meta_ex: CacheMetaEx, manager: BuildMana
         meta_bytes = json_dumps(meta_ex.serialize(), manager.options.debug_cache)
     if not metastore.write(meta_ex_file, meta_bytes):
         manager.log(f"Error writing meta_ex file {meta_ex_file}")
+        return False
+    return True
 
 
 """Dependency manager.
@@ -4839,7 +4841,6 @@ def process_stale_scc(graph: Graph, ascc: SCC, manager: BuildManager) -> None:
             for dep in graph[id].dependencies
             if state.priorities.get(dep) != PRI_INDIRECT
         ]
-        write_cache_meta(meta, manager, meta_file)
         indirect = [dep for dep in state.dependencies if state.priorities.get(dep) == PRI_INDIRECT]
         meta_ex = CacheMetaEx(
             dependencies=indirect,
@@ -4849,7 +4850,11 @@ def process_stale_scc(graph: Graph, ascc: SCC, manager: BuildManager) -> None:
             dep_hashes=[graph[dep].interface_hash for dep in indirect],
             error_lines=errors_by_id.get(id, []),
         )
-        write_cache_meta_ex(meta_file, meta_ex, manager)
+        # The meta file is what makes a cache entry valid, so it must be written last:
+        # a new meta next to the previous run's meta_ex (run killed in between, or the
+        # meta_ex write failed) would replay stale errors and indirect dependencies.
+        if write_cache_meta_ex(meta_file, meta_ex, manager):
+            write_cache_meta(meta, manager, meta_file)
         manager.commit_module(meta_file)
     manager.done_sccs.add(ascc.id)
     manager.add_stats(
